@@ -74,6 +74,15 @@ CLAIMED = {
             'transfer started, window ranges and negotiation, and that infeasible transfers end in an abort for the requester.',
             'Trusted: harness decoder and capability model; limits are taken from the wire; I-Am knowledge counts as of the start of a transfer.',
             'DESIGN.md section 3 (C12)'),
+    'C13': ('exploration',
+            'deterministic simulation: seeded BACnet/IP layouts on the in-memory datagram director, population model of the distribution tables + registration timeline model, independent BVLL decoder',
+            'Seeded layouts of 1-5 IP subnets (repo IPRouter) with real BIPBBMD / BIPSimple / BIPForeign stacks over the real UDPMultiplexer, full or partial BDTs in one-hop and '
+            'two-hop style, foreign devices with TTL 1-300 s; broadcasts from every kind of node at seeded instants (many on registration / TTL / grace edges), unregister / '
+            're-register, Delete-FDT-Entry and Read-FDT by a raw host, per-datagram delays, foreign-device crash and loss of registrations/results. Oracles: every broadcast is handed '
+            'to the network layer of exactly the nodes the tables connect, once, never to its originator, with the true originator as source; a foreign device is served from its '
+            'ack for its TTL, not served nor listed after TTL+grace, renews in time, is not forwarded to after its entry was deleted or beyond the grace after it unregistered.',
+            'Trusted: population/timeline models; 30 s grace band and +-1.5 s around every timeline edge accepted either way; must-reach clauses on fault-free runs only; loop stalls are not part of the quantifier.',
+            'DESIGN.md section 3 (C13), 12.4'),
     'C14': ('exploration',
             'deterministic simulation of the real scheduler under both real loop drivers (run_once stepped; run() with shimmed asyncore and in-memory trigger), reference-scheduler monitor',
             'Every history (enumerated short op sequences over 2-3 tasks with colliding times, every subset of raising members in deferred batches and same-instant '
